@@ -81,6 +81,8 @@ def case_strategy():
             inner_strategy().map(lambda i: ["type", i]), inner_strategy().map(lambda i: ["type", i]),
             # typing.Any inside the annotation: type[Any], type[list[Any]], type[dict[str, Any]] (counts as object)
             st.one_of(st.just(["type", ["anyT"]]), any_inside().map(lambda g: ["type", ["gen", g[1], g[2]]])),
+            # a union inside the annotation: type[A | B], type[Union[A, list[B]]]
+            st.lists(inner_strategy(1), min_size=2, max_size=2, unique_by=repr).map(lambda ms: ["type", ["union", ms]]),
             st.just(["type"]), st.just(["obj"]), st.sampled_from([["cls", "K0"], ["cls", "K1"], ["cls", "int"]]))
         ordinary = st.sampled_from([["cls", "K0"], ["cls", "K1"], ["cls", "int"], ["obj"], ["cls", "str"]])
         methods = []
@@ -128,7 +130,8 @@ def case_strategy():
         # functions and in methods with self
         host = draw(st.sampled_from(["func", "func", "attr", "mc"]))
         router = (not kwmode) and draw(st.integers(0, 2)) > 0
-        return {"methods": methods, "calls": calls, "kwmode": kwmode, "swap": swap, "host": host, "router": router}
+        return {"methods": methods, "calls": calls, "kwmode": kwmode, "swap": swap, "host": host, "router": router,
+                "union_spelling": draw(st.sampled_from(["typing", "pipe"]))}
 
     return _case()
 
@@ -140,6 +143,8 @@ def to_passed(inner):
         return ["clsobj", "object"]
     if inner[0] == "anyT":
         return ["any"]
+    if inner[0] == "union":
+        return to_passed(inner[1][0])  # aim at its first member
     return ["genobj", inner[1], inner[2], False]
 
 
@@ -201,6 +206,11 @@ def sub(x, t, env):
     """is type x a subtype of type t?  True / False / None (unspecified)"""
     if t[0] == "obj":
         return True
+    if t[0] == "union":
+        vals = [sub(x, m, env) for m in t[1]]
+        return True if any(v is True for v in vals) else (None if any(v is None for v in vals) else False)
+    if x[0] == "union":
+        return None
     cx, ct = klass(x, env), klass(t, env)
     if cx is not None and ct is not None:
         return issubclass(cx, ct)
@@ -243,6 +253,8 @@ def order1(a, b, env):
         return S.UNSPEC
     if na[0] == "type" and nb[0] == "type":
         x, y = na[1], nb[1]
+        if x[0] == "union" or y[0] == "union":
+            return S.UNSPEC  # (the order of unions is C12's subject)
         # carve-outs (DESIGN C14): bare class vs parametrised generic of a different origin; generics of different origins
         if (x[0] == "gen") != (y[0] == "gen"):
             g, c = (x, y) if x[0] == "gen" else (y, x)
@@ -337,7 +349,9 @@ def run_case(spec):
                             {"fn": "call_next", "npos": npos, "kws": []}, {"fn": "call_next", "npos": npos, "kws": [], "star": True}]}
         all_methods = real_methods + [router]
     try:
-        prog = Program({"hier": HIER, "methods": all_methods, "host": spec.get("host", "func")}, env=env)
+        spelling = {f"{m['id']}_{p['name']}": {"union": spec.get("union_spelling", "typing")}
+                    for m in all_methods for p in m["pos"] + m["kw"]}
+        prog = Program({"hier": HIER, "methods": all_methods, "host": spec.get("host", "func")}, env=env, spelling=spelling)
     except Exception as e:  # noqa: BLE001
         res.fail(f"program construction failed: {type(e).__name__}: {e}", None)
         return res
